@@ -262,12 +262,23 @@ func stuckAnalysis(pkgFrame, wantFrame string, progress func() int) (parked bool
 		}
 	}
 	// A confirmed hang leaks its goroutines; later cases of this process use a
-	// short watchdog so that a tree that hangs everywhere still finishes.
-	watchdogNow.Store(int64(2 * time.Second))
+	// short watchdog so that a tree that hangs everywhere still finishes, and a
+	// still shorter one once the hang was confirmed several times (a tree on
+	// which a whole class of scenarios hangs: ~1 000 of the quick cases). The
+	// verdict condition is unchanged, a shorter watchdog can only turn a slow
+	// case of an already violating tree into an inconclusive one.
+	if confirmedHangs.Add(1) >= 3 {
+		watchdogNow.Store(int64(300 * time.Millisecond))
+	} else {
+		watchdogNow.Store(int64(2 * time.Second))
+	}
 	return true, dump
 }
 
-var watchdogNow atomic.Int64
+var (
+	watchdogNow    atomic.Int64
+	confirmedHangs atomic.Int64
+)
 
 func currentWatchdog() time.Duration {
 	if d := watchdogNow.Load(); d != 0 {
